@@ -1289,4 +1289,65 @@ class GenC07(FileGen):
         return gen_ojn_doc(self.d, 4 if self.tier == "quick" else 6), {}
 
 
-SCENARIOS = {"C01": GenC01, "C02": GenC02, "C07": GenC07, "C04": GenC04, "C05": GenC05, "C03": GenC03, "C06": GenC06, "C16": GenC16, "C14": GenC14, "C12": GenC12, "C08": GenC08, "C13": GenC13, "C15": GenC15}
+class GenC09(FileGen):
+    """read_file -> XToY.convert -> write_file for each of the 16 pairs; judged on the two files only."""
+
+    game = "osu"
+    write_games = ("osu", "qua", "sm", "bms")
+    read_games = ("osu", "qua", "sm", "bms", "o2j")
+    table = dict(pipeline=1)
+    max_handles = 12
+    QUA, SMK = {4, 7, 8}, {3, 4, 6, 7, 8}
+
+    def p_pipeline(self):
+        from . import gen_files as G
+
+        conv = self.r.choice([c for c in CONVERTERS if not c.endswith(".merge")])
+        sg, sk, tg, tk, has_shift, dshift, _ = CONVERTERS[conv]
+        grid = tg in ("sm", "bms")  # the target has a beat grid: sources sit on it (and on whole milliseconds)
+        keys_ok = {"qua": self.QUA, "sm": self.SMK, "bms": set(range(1, 9)), "osu": set(range(1, 10))}[tg]
+        # first tempo point: BMS has no offset concept -> 0; otherwise the knob decides (see F-C09-sm-offset)
+        t0_zero = tg == "bms" or self.s.knobs.get("pipe_t0_zero", True)
+        fmt, layout = {}, None
+        hi = self.hi
+        if sg == "osu":
+            keys = self.d.choice(sorted(keys_ok & {4, 7, 8, 3, 6, 5}))
+            if grid:
+                doc = G.gen_osu_pipeline_doc(self.d, keys, hi, 0 if t0_zero else self.d.choice([0, 1000, 500]))
+            else:
+                doc = G.gen_osu_doc(self.d, hi, keys=keys)
+            fmt = G.gen_osu_fmt(self.d, self.s.knobs)
+        elif sg == "qua":
+            keys = self.d.choice(sorted(keys_ok & self.QUA))
+            doc = G.gen_qua_pipeline_doc(self.d, keys, hi, 0 if (t0_zero or not grid) else self.d.choice([0, 1000, 500]))
+            fmt = G.gen_qua_fmt(self.d, self.s.knobs)
+        elif sg == "sm":
+            doc = G.gen_sm_doc(self.d, 3, pipeline=dict(keys=keys_ok & self.SMK, offset0=t0_zero if grid else False))
+            fmt = G.gen_sm_fmt(self.d, self.s.knobs)
+        elif sg == "bms":
+            doc, layout = G.gen_bms_doc(self.d, 4, pipeline=dict(keys=keys_ok & set(range(1, 9))))
+            fmt = G.gen_bms_fmt(self.d, self.s.knobs)
+        else:
+            doc = G.gen_ojn_doc(self.d, 4, pipeline=dict(on=True))
+        path = self.new_path(sg)
+        src = self.new_h()
+        rd = self.io_read_op(sg, path, out=src)
+        if layout:
+            rd["layout"] = layout
+        n = 1
+        if tk in ("maps", "mapsets"):
+            n = len(doc["charts"]) if sg == "sm" else 3
+        outs = [self.new_h() for _ in range(n)]
+        cons = dict(keys=sorted(keys_ok), grid=grid, t0_zero=bool(t0_zero and grid))
+        ops = [self.mk("fs.install", game=sg, path=path, doc=doc, fmt=fmt, constraint=cons), rd, self.mk("convert", conv=conv, h=src, outs=outs)]
+        for o in outs:
+            w = self.io_write_op(tg, o, self.new_path(tg), first=True)
+            w["prop"] = "C09"
+            if tg == "bms":
+                w["layout"] = "BME"
+            ops.append(w)
+        ops.append(self.mk("drop", hs=[src] + outs))
+        return ops
+
+
+SCENARIOS = {"C01": GenC01, "C02": GenC02, "C07": GenC07, "C09": GenC09, "C04": GenC04, "C05": GenC05, "C03": GenC03, "C06": GenC06, "C16": GenC16, "C14": GenC14, "C12": GenC12, "C08": GenC08, "C13": GenC13, "C15": GenC15}
